@@ -115,6 +115,27 @@ var c14Features = func() []string {
 	return f
 }()
 
+// c14ParseFaultTails are appended to valid programs: faults the parser reports only after it has read
+// (and built a tree for) everything before them - through the grammar's error rules, the lexer's
+// number conversion, or plain syntax errors at the end of a long valid prefix.
+var c14ParseFaultTails = []string{
+	"switch 1 {\ndefault:\n 1\ndefault:\n 2\n}",
+	"if true { } else { } else { }",
+	"zz9 = 99999999999999999999999",
+	"zz9 = 7e9999",
+	"zz9 = 0x8000000000000123456",
+	"zz9 = 3..25",
+	"= 1",
+	"zz9 = (1 + ",
+	"zz9 = [1, 2",
+	"func zz9( {",
+	"zz9 = \"unterminated",
+	"for { break ",
+	"zz9 = 1 2",
+	"1++ = 2",
+	"}",
+}
+
 type c14Obs struct {
 	trace   string
 	gtrace  string
@@ -439,6 +460,28 @@ func init() {
 					}
 					if !checkDump(fmt.Sprintf("sequential run %d", i+1)) {
 						return
+					}
+				}
+				// round 10: the same SOURCE (not tree) given to the execute-a-source entry point in equal fresh
+				// environments, with a fault the parser reports after the whole valid program: the outcome
+				// (error status, value, trace) is the same every time, however often the text was seen before
+				if spec == "" {
+					tail := c14ParseFaultTails[c.Rng.Intn(len(c14ParseFaultTails))]
+					bad := src + "\n" + tail
+					c.Begin(bad)
+					var first c14Obs
+					for i := 0; i < 4; i++ {
+						o := c14Observe(realrun.Run(bad))
+						if o.timeout {
+							break
+						}
+						nruns++
+						if i == 0 {
+							first = o
+						} else if d := first.diff(o); d != "" {
+							c.Violation("source-rerun-differs:parse-fault", fmt.Sprintf("run %d of the same source text in a fresh environment differs from run 1: %s", i+1, d), map[string]string{"source": bad, "fault": tail})
+							return
+						}
 					}
 				}
 			} else {
